@@ -88,7 +88,11 @@ def main():
     valid = clean_pass and compiles and changed_fail and suite_ok
     meta["valid"] = valid
     print("%s-%s: clean_pass=%s compiles=%s changed_fail=%s suite_ok=%s => %s" % (prop, k, clean_pass, compiles, changed_fail, suite_ok, "VALID" if valid else "INVALID"))
-    rc = run_checks(meta, diff, props, d, prop, k)
+    os.makedirs(d, exist_ok=True)
+    if "--validate-only" in sys.argv:
+        rc = 0  # the checks are run later with --checks-only (serialised on /repo)
+    else:
+        rc = run_checks(meta, diff, props, d, prop, k)
     shutil.copy(diff, os.path.join(d, "patch.diff"))
     shutil.copy(demo, os.path.join(d, "demo.rs"))
     if os.path.exists(notes):
@@ -111,8 +115,15 @@ def run_checks(meta, diff, props, d, prop, k):
         if rc != 0:
             print("patch does not apply to /repo", o)
             return 2
-        for p in props:
-            rc, o = sh("PV_OUT=/tmp/pvout-seed ./check %s --tier quick" % p, cwd=VERIF)
+        from concurrent.futures import ThreadPoolExecutor
+
+        def one(p):
+            return p, sh("PV_OUT=/tmp/pvout-seed ./check %s --tier quick" % p, cwd=VERIF)
+
+        results = [one(props[0])]
+        with ThreadPoolExecutor(max_workers=4) as ex:
+            results += list(ex.map(one, props[1:]))
+        for p, (rc, o) in results:
             keys = []
             for rep in re.findall(r"VIOLATION property=\S+ replay=(\S+)", o):
                 try:
